@@ -15,7 +15,13 @@ use crate::response::{Response, StatusCode};
 use crate::server::MAX_PAYLOAD_SIZE;
 use vmm_sys_util::sock_ctrl_msg::ScmSocket;
 
+#[cfg(not(feature = "micro_http_verif_smallbuf"))]
 const BUFFER_SIZE: usize = 1024;
+#[cfg(feature = "micro_http_verif_smallbuf")]
+const BUFFER_SIZE: usize = 32;
+/// Size of the receive buffer (verification hook).
+#[cfg(feature = "micro_http_verif")]
+pub const VERIF_BUFFER_SIZE: usize = BUFFER_SIZE;
 const SCM_MAX_FD: usize = 253;
 
 /// Describes the state machine of an HTTP connection.
